@@ -1315,6 +1315,7 @@ class JumpBase(FinalInstruction):
 
     def delete(self):
         """Clear references"""
+        super().delete()
         while self._block_map:
             _, block = self._block_map.popitem()
             # A block may be the target more than once (cjmp a ? x : x):
